@@ -1,5 +1,5 @@
-(* Layer I, group R: bid128_round_integral_{zero, negative, positive, nearest_even, nearest_away, exact} and bid128_nearbyint
-   equal the reference model (OpsMisc.v: rint_dec md signal_inexact; Judge.v maps ORintFix m to rint_dec m false, ORint to
+(* Layer I, groups R / RP: bid128_round_integral_{zero, negative, positive, nearest_even, nearest_away} and bid128_nearbyint
+   (complete theorems) and bid128_round_integral_exact (PARTIAL theorem) against the reference model (OpsMisc.v: rint_dec md signal_inexact; Judge.v maps ORintFix m to rint_dec m false, ORint to
    rint_dec md true, ONearbyint to rint_dec md false) for ALL inputs. One block per routine (layerI.py compiles each block
    as a file of its own under the header of ImplProofs.v). Shared lemmas and the tactics of the walk: ImplRint.v.
    Axiom-free. *)
@@ -13,11 +13,16 @@ Ltac unfold_helpers := unfold i_d128_Default_default, i_d128_new.
 
 (* BEGIN bid128_round_integral_zero *)
 From DVI Require Import ImplTables ImplRint.
-Ltac rint_zero_leaf x1 CND :=
-  apply rint_zero; [assumption|assumption|lia|CND|reflexivity|];
-  unfold sgZ, bexpW; first [replace (24 <=? g5W x1) with true by lia | replace (24 <=? g5W x1) with false by lia];
-  change (wrap_u64 (6176 * 562949953421312)) with 3476778912330022912;
-  rewrite !lor_hi63 by lia; split_ifs_eq; lia.
+(* bid128_round_integral_zero completely (model: rint_dec RTZ false = ORintFix RTZ of Judge.v): for every 128-bit operand pattern (NaN: quiet result with payload canonicalisation, invalid
+   for a signaling NaN; infinities; zeros and the three non-canonical forms: zero with the sign of x and exponent max(q, 0);
+   exponent >= 0: the operand is returned; |x| < 1 by the exponent test or by the digit count (f64 bit-length idiom +
+   BID_NR_DIGITS); otherwise the quotient C / 10^k, k = -q in 1..33(34), through the 118-bit reciprocal BID_TEN2MK128[k-1]
+   (__mul_128x128_to_256, shift by BID_SHIFTRIGHT128[k-1] in the three ranges k <= 3, 4..22, 23..34))
+   and every incoming status word, the generated code never fails (ok_ = true: every BID_NR_DIGITS / BID_TEN2MK128 /
+   BID_SHIFTRIGHT128 / BID_MASKHIGH128 / BID_MIDPOINT64 / BID_MIDPOINT128 index in range, every `as f64` argument below
+   2^53, every variable shift amount in 0..63 -- this routine has no shift by 64, unlike the to-integer family) and returns the
+   model's single outcome: result words = the pattern of rint_dec RTZ false, status word = incoming word | the flags of
+   that outcome (invalid for a signaling NaN, nothing otherwise: the fixed-mode routines never raise inexact). *)
 Theorem V_bid128_round_integral_zero x0 x1 st : in_u64 x0 -> in_u64 x1 -> in_u32 st ->
   rint_spec RTZ false x0 x1 st (i_bid128_round_integral_zero x0 x1 st).
 Proof.
@@ -70,7 +75,7 @@ Proof.
     - unfold sgZ. rewrite lor_hi63 by lia. lia.
     - rewrite andb_false_r. reflexivity. }
   assert (Hk34 : 1 <= k <= 34) by lia.
-  destruct (rint_row k Hk34) as (RK0 & RK1 & RS & RB & RZ & RM & RH & RE1 & RE2). cbv zeta in RS, RB, RZ, RM.
+  destruct (rint_row k Hk34) as (RK0 & RK1 & RS & RB & RZ & RM & RE1 & RE2). cbv zeta in RS, RB, RZ, RM.
   pose proof (R_mul_128x128_to_256 x0 hi _ _ H0 ltac:(unfold in_u64; lia) RK0 RK1) as MUL.
   destruct (i___mul_128x128_to_256 _ _ _ _) as [[[p0 p1] p2] p3]. destruct MUL as (P0 & P1 & P2 & P3 & MUL).
   change (hi * 18446744073709551616 + x0) with C in MUL. fold (rk k) in MUL.
@@ -154,6 +159,17 @@ Print Assumptions I_bid128_round_integral_zero.
 
 (* BEGIN bid128_round_integral_negative *)
 From DVI Require Import ImplTables ImplRint.
+(* bid128_round_integral_negative completely (model: rint_dec RDN false = ORintFix RDN of Judge.v): for every 128-bit operand pattern (NaN: quiet result with payload canonicalisation, invalid
+   for a signaling NaN; infinities; zeros and the three non-canonical forms: zero with the sign of x and exponent max(q, 0);
+   exponent >= 0: the operand is returned; |x| < 1 by the exponent test or by the digit count (f64 bit-length idiom +
+   BID_NR_DIGITS); otherwise the quotient C / 10^k, k = -q in 1..33(34), through the 118-bit reciprocal BID_TEN2MK128[k-1]
+   (__mul_128x128_to_256, shift by BID_SHIFTRIGHT128[k-1] in the three ranges k <= 3, 4..22, 23..34), plus one for a negative
+   operand when the discarded part of the product is >= the reciprocal, i.e. C mod 10^k <> 0 (test on BID_MASKHIGH128 bits and the low 128 bits))
+   and every incoming status word, the generated code never fails (ok_ = true: every BID_NR_DIGITS / BID_TEN2MK128 /
+   BID_SHIFTRIGHT128 / BID_MASKHIGH128 / BID_MIDPOINT64 / BID_MIDPOINT128 index in range, every `as f64` argument below
+   2^53, every variable shift amount in 0..63 -- this routine has no shift by 64, unlike the to-integer family) and returns the
+   model's single outcome: result words = the pattern of rint_dec RDN false, status word = incoming word | the flags of
+   that outcome (invalid for a signaling NaN, nothing otherwise: the fixed-mode routines never raise inexact). *)
 Theorem V_bid128_round_integral_negative x0 x1 st : in_u64 x0 -> in_u64 x1 -> in_u32 st ->
   rint_spec RDN false x0 x1 st (i_bid128_round_integral_negative x0 x1 st).
 Proof.
@@ -303,6 +319,17 @@ Print Assumptions I_bid128_round_integral_negative.
 
 (* BEGIN bid128_round_integral_positive *)
 From DVI Require Import ImplTables ImplRint.
+(* bid128_round_integral_positive completely (model: rint_dec RUP false = ORintFix RUP of Judge.v): for every 128-bit operand pattern (NaN: quiet result with payload canonicalisation, invalid
+   for a signaling NaN; infinities; zeros and the three non-canonical forms: zero with the sign of x and exponent max(q, 0);
+   exponent >= 0: the operand is returned; |x| < 1 by the exponent test or by the digit count (f64 bit-length idiom +
+   BID_NR_DIGITS); otherwise the quotient C / 10^k, k = -q in 1..33(34), through the 118-bit reciprocal BID_TEN2MK128[k-1]
+   (__mul_128x128_to_256, shift by BID_SHIFTRIGHT128[k-1] in the three ranges k <= 3, 4..22, 23..34), plus one for a positive
+   operand when the discarded part of the product is >= the reciprocal, i.e. C mod 10^k <> 0 (test on BID_MASKHIGH128 bits and the low 128 bits))
+   and every incoming status word, the generated code never fails (ok_ = true: every BID_NR_DIGITS / BID_TEN2MK128 /
+   BID_SHIFTRIGHT128 / BID_MASKHIGH128 / BID_MIDPOINT64 / BID_MIDPOINT128 index in range, every `as f64` argument below
+   2^53, every variable shift amount in 0..63 -- this routine has no shift by 64, unlike the to-integer family) and returns the
+   model's single outcome: result words = the pattern of rint_dec RUP false, status word = incoming word | the flags of
+   that outcome (invalid for a signaling NaN, nothing otherwise: the fixed-mode routines never raise inexact). *)
 Theorem V_bid128_round_integral_positive x0 x1 st : in_u64 x0 -> in_u64 x1 -> in_u32 st ->
   rint_spec RUP false x0 x1 st (i_bid128_round_integral_positive x0 x1 st).
 Proof.
@@ -452,6 +479,18 @@ Print Assumptions I_bid128_round_integral_positive.
 
 (* BEGIN bid128_round_integral_nearest_even *)
 From DVI Require Import ImplTables ImplRint.
+(* bid128_round_integral_nearest_even completely (model: rint_dec RNE false = ORintFix RNE of Judge.v): for every 128-bit operand pattern (NaN: quiet result with payload canonicalisation, invalid
+   for a signaling NaN; infinities; zeros and the three non-canonical forms: zero with the sign of x and exponent max(q, 0);
+   exponent >= 0: the operand is returned; |x| < 1 by the exponent test or by the digit count (f64 bit-length idiom +
+   BID_NR_DIGITS); otherwise the quotient C / 10^k, k = -q in 1..33(34), through the 118-bit reciprocal BID_TEN2MK128[k-1]
+   (__mul_128x128_to_256, shift by BID_SHIFTRIGHT128[k-1] in the three ranges k <= 3, 4..22, 23..34) applied to
+   C + 5 * 10^(k-1) (BID_MIDPOINT64 / BID_MIDPOINT128 with the carry into the high word), minus one when the quotient is odd and the
+   division was exact (a tie: discarded part < reciprocal))
+   and every incoming status word, the generated code never fails (ok_ = true: every BID_NR_DIGITS / BID_TEN2MK128 /
+   BID_SHIFTRIGHT128 / BID_MASKHIGH128 / BID_MIDPOINT64 / BID_MIDPOINT128 index in range, every `as f64` argument below
+   2^53, every variable shift amount in 0..63 -- this routine has no shift by 64, unlike the to-integer family) and returns the
+   model's single outcome: result words = the pattern of rint_dec RNE false, status word = incoming word | the flags of
+   that outcome (invalid for a signaling NaN, nothing otherwise: the fixed-mode routines never raise inexact). *)
 Theorem V_bid128_round_integral_nearest_even x0 x1 st : in_u64 x0 -> in_u64 x1 -> in_u32 st ->
   rint_spec RNE false x0 x1 st (i_bid128_round_integral_nearest_even x0 x1 st).
 Proof.
@@ -626,6 +665,17 @@ Print Assumptions I_bid128_round_integral_nearest_even.
 
 (* BEGIN bid128_round_integral_nearest_away *)
 From DVI Require Import ImplTables ImplRint.
+(* bid128_round_integral_nearest_away completely (model: rint_dec RNA false = ORintFix RNA of Judge.v): for every 128-bit operand pattern (NaN: quiet result with payload canonicalisation, invalid
+   for a signaling NaN; infinities; zeros and the three non-canonical forms: zero with the sign of x and exponent max(q, 0);
+   exponent >= 0: the operand is returned; |x| < 1 by the exponent test or by the digit count (f64 bit-length idiom +
+   BID_NR_DIGITS); otherwise the quotient C / 10^k, k = -q in 1..33(34), through the 118-bit reciprocal BID_TEN2MK128[k-1]
+   (__mul_128x128_to_256, shift by BID_SHIFTRIGHT128[k-1] in the three ranges k <= 3, 4..22, 23..34) applied to
+   C + 5 * 10^(k-1) (BID_MIDPOINT64 / BID_MIDPOINT128 with the carry into the high word))
+   and every incoming status word, the generated code never fails (ok_ = true: every BID_NR_DIGITS / BID_TEN2MK128 /
+   BID_SHIFTRIGHT128 / BID_MASKHIGH128 / BID_MIDPOINT64 / BID_MIDPOINT128 index in range, every `as f64` argument below
+   2^53, every variable shift amount in 0..63 -- this routine has no shift by 64, unlike the to-integer family) and returns the
+   model's single outcome: result words = the pattern of rint_dec RNA false, status word = incoming word | the flags of
+   that outcome (invalid for a signaling NaN, nothing otherwise: the fixed-mode routines never raise inexact). *)
 Theorem V_bid128_round_integral_nearest_away x0 x1 st : in_u64 x0 -> in_u64 x1 -> in_u32 st ->
   rint_spec RNA false x0 x1 st (i_bid128_round_integral_nearest_away x0 x1 st).
 Proof.
@@ -1046,254 +1096,750 @@ Print Assumptions I_bid128_round_integral_exact_partial.
 
 (* BEGIN bid128_nearbyint *)
 From DVI Require Import ImplTables ImplRint.
-(* bid128_nearbyint, PARTIAL (theorem I_bid128_nearbyint_partial): for every rounding mode 0..4 (md_of: 0 nearest-even, 1 downward, 2 upward,
-   3 toward zero, 4 nearest-away) and every incoming status word, the result and the flags are the model's
-   (rint_dec (md_of rnd) false) on the operands x that are NaN (quiet / signaling, payload canonicalised, invalid for sNaN),
-   infinite, zero or non-canonical (all three forms), finite with exponent q >= 0 (returned unchanged), or finite non-zero
-   with q <= -35 (|x| < 1/10: 0 or +-1 according to the mode and the sign, no flag).
-   MISSING: finite non-zero operands with -34 <= q <= -1: the digit count, the |x| < 1 cases decided by the midpoint tables, and
-   the reciprocal-multiplication branch with its mode-dependent exactness tests (BID_MASKHIGH128, BID_ONEHALF128,
-   BID_TEN2MK128); the five fixed-mode routines bid128_round_integral_{nearest_even, negative, positive, zero, nearest_away} contain the same
-   arithmetic and are proved completely, the lemmas are in ImplRint.v. No statement about ok_ is made for this routine. *)
-Theorem I_bid128_nearbyint_partial x0 x1 rnd st : in_u64 x0 -> in_u64 x1 -> 0 <= rnd <= 4 -> in_u32 st ->
-  (forall s c q, decode (pat x0 x1) = Fin s c q -> c = 0 \/ 0 <= q \/ q <= -35) ->
+(* bid128_nearbyint completely (model: rint_dec (md_of rnd) false = ONearbyint of Judge.v; md_of: 0 nearest-even, 1 downward,
+   2 upward, 3 toward zero, 4 nearest-away): for every 128-bit operand pattern, every rounding mode 0..4 and every incoming
+   status word, the generated code never fails (ok_ = true: table indices in range, `as f64` arguments below 2^53, variable
+   shift amounts in 0..63) and returns the model's single outcome: result words = the pattern of rint_dec, status word =
+   incoming word | invalid for a signaling NaN, nothing otherwise (nearbyint never raises inexact).
+   The routine dispatches twice on the mode (early exit for exponents <= -35 / -34, then the rounding proper); for a literal
+   mode its code coincides, up to names and dead tuple components, with the fixed-mode routine of that mode, and the lemmas
+   V_bid128_nearbyint_<mode> / OK_bid128_nearbyint_<mode> are the scripts of bid128_round_integral_{nearest_even, negative,
+   positive, zero, nearest_away} applied to it (no generated name is mentioned). NOTE: about 8 minutes of CPU (five value
+   proofs of 60-100 s and five ok_ proofs of 15-25 s); the variant with the PARTIAL theorem (2 min) is kept in
+   alt_block_bid128_nearbyint_partial.v. *)
+Lemma V_bid128_nearbyint_0 x0 x1 st : in_u64 x0 -> in_u64 x1 -> in_u32 st ->
+  rint_spec RNE false x0 x1 st (i_bid128_nearbyint x0 x1 0 st).
+Proof.
+  intros H0 H1 Hst. unfold i_bid128_nearbyint. unfold_helpers. cbn [Z.eqb Pos.eqb orb]. red_lets.
+  pose proof H0 as H0'. pose proof H1 as H1'. unfold in_u64 in H0', H1'.
+  word_norm lia. mask_tests. pose proof (g5W_range x1) as R.
+  step_if B.
+  { (* NaN or infinity *)
+    step_if A.
+    - step_if EP; word_norm lia; step_if ES; rint_nan_leaf.
+    - step_if SG; (apply rint_inf; [assumption|assumption|lia|]; unfold sgZ; rewrite SG; reflexivity). }
+  step_if C24.
+  { step_if Z0. 2:{ discriminate Z0. } rint_zero_leaf x1 ltac:(left; lia). }
+  step_if NC.
+  { step_if Z0. 2:{ discriminate Z0. } rint_zero_leaf x1 ltac:(right; left; unfold hiW, T34; lia). }
+  step_if Z0.
+  { rint_zero_leaf x1 ltac:(right; right; unfold hiW; lia). }
+  assert (G24 : g5W x1 < 24) by lia.
+  set (hi := x1 mod 562949953421312) in *.
+  assert (Hhi : 0 <= hi < 562949953421312) by (apply Z.mod_pos_bound; reflexivity).
+  set (C := hi * 18446744073709551616 + x0).
+  assert (HC : 0 < C < 10000000000000000000000000000000000) by (unfold C; lia).
+  set (be := (x1 / 562949953421312) mod 16384) in *.
+  assert (Hbe : 0 <= be <= 12287) by (unfold be, g5W in *; lia).
+  set (sb := (x1 / 9223372036854775808) mod 2) in *.
+  assert (Hsb : 0 <= sb <= 1) by (unfold sb; lia).
+  set (k := 6176 - be) in *.
+  assert (SMALL : be < 6176 -> 2 * C < 10 ^ k ->
+    rint_spec RNE false x0 x1 st (0, Z.lor (sb * 9223372036854775808) 3476778912330022912, st)).
+  { intros Hb HS. rewrite lor_hi63 by lia. apply (rint_leaf RNE false x0 x1 st _ _ _ 0 sb H0 H1 G24 HC Hb eq_refl).
+    - unfold in_u64. lia.
+    - lia.
+    - rewrite (rint_n_small RNE _ C k) by (split; [exact (proj1 HC)|lia]). replace (10 ^ k <? 2 * C) with false by lia. reflexivity.
+    - lia.
+    - rewrite andb_false_r. reflexivity. }
+  step_if SM.
+  { apply SMALL; [lia|]. apply Z.lt_le_trans with (10 ^ 35); [change (10 ^ 35) with 100000000000000000000000000000000000; lia|apply Z.pow_le_mono_r; lia]. }
+  word_norm lia.
+  nbits_stage x0 hi C.
+  assert (Ee : wrap_i32 (wrap_u64 (be - 6176)) = be - 6176) by (unfold wrap_i32, wrap_u64; lia).
+  rewrite !Ee. clear Ee.
+  step_if EXP.
+  { apply rint_ident; [assumption|assumption|exact G24|exact HC|change (beW x1) with be; lia]. }
+  digits_stage x0 hi C.
+  pose proof (nd_range C HC) as Hnd. pose proof (nd_bounds C (proj1 HC)) as Bnd.
+  set (nd := ndigits C) in *.
+  assert (Hk : 1 <= k) by lia.
+  replace (be - 6176) with (- k) by (unfold k; ring). rewrite Z.opp_involutive.
+  wrap_ids lia.
+  step_if QE.
+  2: { apply SMALL; [lia|]. assert (10 ^ nd <= 10 ^ (k - 1)) by (apply Z.pow_le_mono_r; lia).
+    replace k with (Z.succ (k - 1)) at 1 by lia. rewrite Z.pow_succ_r by lia. lia. }
+  assert (Hk34 : 1 <= k <= 34) by lia.
+  destruct (mid_words k Hk34) as (HM & M19 & M20). cbv zeta in HM, M19, M20.
+  set (M := 5 * 10 ^ (k - 1)) in *.
+  set (m0 := M mod 18446744073709551616). set (m1 := M / 18446744073709551616).
+  goal_term ltac:(fun t => let h := spine_head t in assert (EH : h = (wrap_u64 (x0 + m0), hi + m1))).
+  { destruct (Z.leb_spec k 19) as [K19|K19].
+    - destruct (M19 K19) as [E1 E2]. rewrite E1. unfold m0, m1. clearbody M. f_equal; [f_equal|]; lia.
+    - destruct (M20 ltac:(lia)) as [E1 E2]. rewrite (wrap_usize_id (k - 20)) by (unfold in_u64; lia).
+      set (w0 := nth (Z.to_nat (k - 20)) T_BID_MIDPOINT128_w0 0) in *. set (w1 := nth (Z.to_nat (k - 20)) T_BID_MIDPOINT128_w1 0) in *.
+      unfold m0, m1, wrap_u64, in_u64 in *. clearbody M w0 w1. f_equal; [f_equal|]; lia. }
+  rewrite EH. clear EH. cbv beta iota.
+  set (c0 := wrap_u64 (x0 + m0)). set (c1 := if c0 <? x0 then wrap_u64 (hi + m1 + 1) else hi + m1).
+  set (C' := C + M).
+  assert (EC : c1 * 18446744073709551616 + c0 = C' /\ in_u64 c0 /\ in_u64 c1).
+  { unfold c1, c0, C', C, m0, m1, wrap_u64, in_u64. clearbody M. destruct (Z.ltb_spec ((x0 + M mod 18446744073709551616) mod 18446744073709551616) x0); lia. }
+  destruct EC as (EC & HC0 & HC1).
+  assert (HCb : 0 <= C' <= 20000000000000000000000000000000000) by (unfold C'; lia).
+  mul_stage_gen c0 c1 C' k EC HC0 HC1 HCb Hk34.
+  set (K0 := nth (Z.to_nat (k - 1)) T_BID_TEN2MK128_w0 0) in *. set (K1 := nth (Z.to_nat (k - 1)) T_BID_TEN2MK128_w1 0) in *.
+  unfold in_u64 in RK0, RK1, P0, P1, P2, P3.
+  assert (EK : rk k = K1 * 18446744073709551616 + K0) by reflexivity. rewrite EK in T0. clear TH TL.
+  set (Q := C' / 10 ^ k) in *. set (r := C' mod 10 ^ k) in *.
+  set (N := if (r =? 0) && (Q mod 2 =? 1) then Q - 1 else Q).
+  assert (EN : rint_n RNE (1 <=? sb) C k = N) by (apply (rne_form (1 <=? sb) C k); lia).
+  assert (QB : 0 <= Q < 2000000000000000000000000000000000).
+  { unfold Q. split; [apply Z.div_pos; [lia|apply Z.pow_pos_nonneg; lia]|]. apply Z.div_lt_upper_bound; [apply Z.pow_pos_nonneg; lia|].
+    assert (10 <= 10 ^ k) by (change 10 with (10 ^ 1) at 1; apply Z.pow_le_mono_r; lia).
+    assert (C' < 20000000000000000000000000000000000) by (unfold C'; clear - HC HM; lia).
+    set (D := 10 ^ k) in *. clearbody D. clear - H H2. lia. }
+  assert (HN : 0 <= N <= Q).
+  { pose proof (rint_n_bounds RNE (1 <=? sb) C k ltac:(lia) ltac:(lia)) as NB. rewrite EN in NB.
+    assert (HQ0 : 0 <= C / 10 ^ k) by (apply Z.div_pos; [lia|apply Z.pow_pos_nonneg; lia]).
+    split; [set (q := C / 10 ^ k) in *; clearbody q; clear - NB HQ0; lia|]. unfold N. destruct ((r =? 0) && (Q mod 2 =? 1)); clear; lia. }
+  assert (FIN : forall r0 h, r0 = N mod 18446744073709551616 /\ h = N / 18446744073709551616 ->
+    rint_spec RNE false x0 x1 st (r0, Z.lor h (Z.lor (sb * 9223372036854775808) 3476778912330022912), st)).
+  { intros r0 h [-> ->].
+    rewrite lor_res by (clear - HN QB; lia).
+    assert (Hb : be < 6176) by lia.
+    apply (rint_leaf RNE false x0 x1 st _ _ _ (N / 18446744073709551616) sb H0 H1 G24 HC Hb eq_refl).
+    - unfold in_u64. clear - HN QB. lia.
+    - clear - HN QB. lia.
+    - transitivity N; [clear; lia|symmetry; exact EN].
+    - reflexivity.
+    - rewrite andb_false_r. reflexivity. }
+  assert (Q64 : 23 <= k -> Q < 18446744073709551616).
+  { intros K23. apply Z.div_lt_upper_bound; [apply Z.pow_pos_nonneg; lia|].
+    assert (10 ^ 23 <= 10 ^ k) by (apply Z.pow_le_mono_r; lia). change (10 ^ 23) with 100000000000000000000000 in *. clear - H HCb. lia. }
+  clear EN. clearbody Q r. unfold rq_q, rq_a in *. rewrite !land_1.
+  step_if K3.
+  { replace (k <=? 22) with true in * by lia. replace (k <=? 3) with true in * by lia.
+    replace (rs k) with 0 in * by (destruct (Z.eqb_spec (rs k) 0); [lia|exfalso; lia]). rewrite Z.div_1_r in QQ.
+    rewrite (lt_test0 p1 p0 K1 K0 r P0 P1 RK0 RK1 T0).
+    clear - FIN QQ QB HN P2 P3.
+    step_ifs; apply FIN; unfold N, wrap_u64 in *; destruct ((r =? 0) && (Q mod 2 =? 1)) eqn:CN; split_ifs_eq; lia. }
+  step_if K22.
+  { replace (k <=? 22) with true in * by lia. replace (k <=? 3) with false in * by lia.
+    assert (Hs : 0 < rs k < 64) by (destruct (Z.eqb_spec (rs k) 0); destruct (Z.ltb_spec (rs k) 64); lia).
+    destruct (shr128_words p2 p3 (rs k) ltac:(unfold in_u64; lia) ltac:(unfold in_u64; lia) Hs) as [S1 S2]. cbv zeta in S1, S2. rewrite S1, S2.
+    rewrite (land_mask p2 k Hk34) by lia. rewrite (Z.mod_small (rs k) 64) by lia.
+    rewrite QQ. set (m := p2 mod 2 ^ rs k) in *.
+    rewrite <- !andb_assoc. rewrite (lt_test1 m p1 p0 K1 K0 r (proj1 QA) P0 P1 RK0 RK1 T0).
+    clear - FIN QB HN.
+    step_ifs; apply FIN; unfold N, wrap_u64 in *; destruct ((r =? 0) && (Q mod 2 =? 1)) eqn:CN; split_ifs_eq; lia. }
+  replace (k <=? 22) with false in * by lia. replace (k <=? 3) with false in * by lia.
+  assert (Hs : 64 <= rs k < 128) by (destruct (Z.ltb_spec (rs k) 64); lia).
+  rewrite (shr64_word p3 (rs k) Hs). rewrite (land_mask p3 k Hk34) by lia.
+  replace (rs k mod 64) with (rs k - 64) by (clear - Hs; lia).
+  specialize (Q64 ltac:(lia)).
+  rewrite QQ. set (m := p3 mod 2 ^ (rs k - 64)) in *.
+  assert (Hm : 0 <= m) by (apply Z.mod_pos_bound; apply Z.pow_pos_nonneg; lia).
+  rewrite <- !andb_assoc. rewrite (lt_test2 m p2 p1 p0 K1 K0 r Hm P2 P0 P1 RK0 RK1 T0).
+  clear - FIN QB HN Q64.
+  step_ifs; apply FIN; unfold N, wrap_u64 in *; destruct ((r =? 0) && (Q mod 2 =? 1)) eqn:CN; split_ifs_eq; lia.
+Qed.
+
+Lemma V_bid128_nearbyint_1 x0 x1 st : in_u64 x0 -> in_u64 x1 -> in_u32 st ->
+  rint_spec RDN false x0 x1 st (i_bid128_nearbyint x0 x1 1 st).
+Proof.
+  intros H0 H1 Hst. unfold i_bid128_nearbyint. unfold_helpers. cbn [Z.eqb Pos.eqb orb]. red_lets.
+  pose proof H0 as H0'. pose proof H1 as H1'. unfold in_u64 in H0', H1'.
+  word_norm lia. mask_tests. pose proof (g5W_range x1) as R.
+  step_if B.
+  { (* NaN or infinity *)
+    step_if A.
+    - step_if EP; word_norm lia; step_if ES; rint_nan_leaf.
+    - step_if SG; (apply rint_inf; [assumption|assumption|lia|]; unfold sgZ; rewrite SG; reflexivity). }
+  step_if C24.
+  { step_if Z0. 2:{ discriminate Z0. } rint_zero_leaf x1 ltac:(left; lia). }
+  step_if NC.
+  { step_if Z0. 2:{ discriminate Z0. } rint_zero_leaf x1 ltac:(right; left; unfold hiW, T34; lia). }
+  step_if Z0.
+  { rint_zero_leaf x1 ltac:(right; right; unfold hiW; lia). }
+  assert (G24 : g5W x1 < 24) by lia.
+  set (hi := x1 mod 562949953421312) in *.
+  assert (Hhi : 0 <= hi < 562949953421312) by (apply Z.mod_pos_bound; reflexivity).
+  set (C := hi * 18446744073709551616 + x0).
+  assert (HC : 0 < C < 10000000000000000000000000000000000) by (unfold C; lia).
+  set (be := (x1 / 562949953421312) mod 16384) in *.
+  assert (Hbe : 0 <= be <= 12287) by (unfold be, g5W in *; lia).
+  set (sb := (x1 / 9223372036854775808) mod 2) in *.
+  assert (Hsb : 0 <= sb <= 1) by (unfold sb; lia).
+  set (k := 6176 - be) in *.
+  assert (SMALL : forall r0 r1, be < 6176 -> C < 10 ^ k -> r0 = (if 1 <=? sb then 1 else 0) ->
+    r1 = sb * 9223372036854775808 + 3476778912330022912 -> rint_spec RDN false x0 x1 st (r0, r1, st)).
+  { intros r0 r1 Hb HS -> ->. apply (rint_leaf RDN false x0 x1 st _ _ _ 0 sb H0 H1 G24 HC Hb eq_refl).
+    - unfold in_u64. destruct (1 <=? sb); lia.
+    - lia.
+    - rewrite (rint_n_small RDN _ C k) by (split; [exact (proj1 HC)|exact HS]). destruct (1 <=? sb); reflexivity.
+    - lia.
+    - rewrite andb_false_r. reflexivity. }
+  step_if SM.
+  { assert (HS : C < 10 ^ k) by (apply Z.lt_le_trans with (10 ^ 34); [exact (proj2 HC)|apply Z.pow_le_mono_r; lia]).
+    step_if SGN; (apply SMALL; [lia|exact HS|destruct (Z.leb_spec 1 sb); lia|lia]). }
+  word_norm lia.
+  nbits_stage x0 hi C.
+  assert (Ee : wrap_i32 (wrap_u64 (be - 6176)) = be - 6176) by (unfold wrap_i32, wrap_u64; lia).
+  rewrite !Ee. clear Ee.
+  step_if EXP.
+  { apply rint_ident; [assumption|assumption|exact G24|exact HC|change (beW x1) with be; lia]. }
+  digits_stage x0 hi C.
+  pose proof (nd_range C HC) as Hnd. pose proof (nd_bounds C (proj1 HC)) as Bnd.
+  set (nd := ndigits C) in *.
+  assert (Hk : 1 <= k) by lia.
+  replace (be - 6176) with (- k) by (unfold k; ring). rewrite Z.opp_involutive.
+  wrap_ids lia.
+  step_if QE.
+  2: { assert (HS : C < 10 ^ k) by (apply Z.lt_le_trans with (10 ^ nd); [exact (proj2 Bnd)|apply Z.pow_le_mono_r; lia]).
+    step_if SGN; (apply SMALL; [lia|exact HS|destruct (Z.leb_spec 1 sb); lia|lia]). }
+  mul_stage x0 hi C k HC Hk H0.
+  set (K0 := nth (Z.to_nat (k - 1)) T_BID_TEN2MK128_w0 0) in *. set (K1 := nth (Z.to_nat (k - 1)) T_BID_TEN2MK128_w1 0) in *.
+  unfold in_u64 in RK0, RK1, P0, P1, P2, P3.
+  assert (EK : rk k = K1 * 18446744073709551616 + K0) by reflexivity. rewrite EK in T0. clear TH TL.
+  set (Q := C / 10 ^ k) in *. set (r := C mod 10 ^ k) in *.
+  set (N := if (1 <=? sb) && negb (r =? 0) then Q + 1 else Q).
+  assert (FIN : forall r0 h, r0 = N mod 18446744073709551616 /\ h = N / 18446744073709551616 ->
+    rint_spec RDN false x0 x1 st (r0, Z.lor h (Z.lor (sb * 9223372036854775808) 3476778912330022912), st)).
+  { intros r0 h [-> ->]. assert (HN : Q <= N <= Q + 1) by (unfold N; destruct ((1 <=? sb) && negb (r =? 0)); clear; lia).
+    rewrite lor_res by (clear - HN QB QQ; lia).
+    assert (Hb : be < 6176) by lia.
+    apply (rint_leaf RDN false x0 x1 st _ _ _ (N / 18446744073709551616) sb H0 H1 G24 HC Hb eq_refl).
+    - unfold in_u64. clear - HN QB QQ. lia.
+    - clear - HN QB QQ. lia.
+    - transitivity N; [clear; lia|reflexivity].
+    - reflexivity.
+    - rewrite andb_false_r. reflexivity. }
+  assert (Q64 : 23 <= k -> Q < 18446744073709551616).
+  { intros K23. apply Z.div_lt_upper_bound; [apply Z.pow_pos_nonneg; lia|].
+    assert (10 ^ 23 <= 10 ^ k) by (apply Z.pow_le_mono_r; lia). change (10 ^ 23) with 100000000000000000000000 in *. clear - H HC. lia. }
+  clearbody Q r. unfold rq_q, rq_a in *.
+  step_if K3.
+  { replace (k <=? 22) with true in * by lia. replace (k <=? 3) with true in * by lia.
+    replace (rs k) with 0 in * by (destruct (Z.eqb_spec (rs k) 0); [lia|exfalso; lia]). rewrite Z.div_1_r in QQ, QB. rewrite QQ in QB.
+    rewrite (ge_test0 p1 p0 K1 K0 r P0 P1 RK0 RK1 T0).
+    clear - FIN QQ QB Hsb P2 P3.
+    step_ifs; apply FIN; unfold N, wrap_u64; destruct ((1 <=? sb) && negb (r =? 0)) eqn:CN; split_ifs_eq; lia. }
+  step_if K22.
+  { replace (k <=? 22) with true in * by lia. replace (k <=? 3) with false in * by lia.
+    assert (Hs : 0 < rs k < 64) by (destruct (Z.eqb_spec (rs k) 0); destruct (Z.ltb_spec (rs k) 64); lia).
+    destruct (shr128_words p2 p3 (rs k) ltac:(unfold in_u64; lia) ltac:(unfold in_u64; lia) Hs) as [S1 S2]. cbv zeta in S1, S2. rewrite S1, S2.
+    rewrite (land_mask p2 k Hk34) by lia. rewrite (Z.mod_small (rs k) 64) by lia.
+    rewrite QQ in QB |- *. set (m := p2 mod 2 ^ rs k) in *.
+    rewrite (ge_test1 m p1 p0 K1 K0 r (proj1 QA) P0 P1 RK0 RK1 T0).
+    clear - FIN QQ QB Hsb.
+    step_ifs; apply FIN; unfold N, wrap_u64; destruct ((1 <=? sb) && negb (r =? 0)) eqn:CN; split_ifs_eq; lia. }
+  replace (k <=? 22) with false in * by lia. replace (k <=? 3) with false in * by lia.
+  assert (Hs : 64 <= rs k < 128) by (destruct (Z.ltb_spec (rs k) 64); lia).
+  rewrite (shr64_word p3 (rs k) Hs). rewrite (land_mask p3 k Hk34) by lia.
+  replace (rs k mod 64) with (rs k - 64) by (clear - Hs; lia).
+  specialize (Q64 ltac:(lia)).
+  rewrite QQ in QB |- *. set (m := p3 mod 2 ^ (rs k - 64)) in *.
+  assert (Hm : 0 <= m) by (apply Z.mod_pos_bound; apply Z.pow_pos_nonneg; lia).
+  rewrite (ge_test2 m p2 p1 p0 K1 K0 r Hm P2 P0 P1 RK0 RK1 T0).
+  clear - FIN QQ QB Hsb Q64.
+  step_ifs; apply FIN; unfold N, wrap_u64; destruct ((1 <=? sb) && negb (r =? 0)) eqn:CN; split_ifs_eq; lia.
+Qed.
+
+Lemma V_bid128_nearbyint_2 x0 x1 st : in_u64 x0 -> in_u64 x1 -> in_u32 st ->
+  rint_spec RUP false x0 x1 st (i_bid128_nearbyint x0 x1 2 st).
+Proof.
+  intros H0 H1 Hst. unfold i_bid128_nearbyint. unfold_helpers. cbn [Z.eqb Pos.eqb orb]. red_lets.
+  pose proof H0 as H0'. pose proof H1 as H1'. unfold in_u64 in H0', H1'.
+  word_norm lia. mask_tests. pose proof (g5W_range x1) as R.
+  step_if B.
+  { (* NaN or infinity *)
+    step_if A.
+    - step_if EP; word_norm lia; step_if ES; rint_nan_leaf.
+    - step_if SG; (apply rint_inf; [assumption|assumption|lia|]; unfold sgZ; rewrite SG; reflexivity). }
+  step_if C24.
+  { step_if Z0. 2:{ discriminate Z0. } rint_zero_leaf x1 ltac:(left; lia). }
+  step_if NC.
+  { step_if Z0. 2:{ discriminate Z0. } rint_zero_leaf x1 ltac:(right; left; unfold hiW, T34; lia). }
+  step_if Z0.
+  { rint_zero_leaf x1 ltac:(right; right; unfold hiW; lia). }
+  assert (G24 : g5W x1 < 24) by lia.
+  set (hi := x1 mod 562949953421312) in *.
+  assert (Hhi : 0 <= hi < 562949953421312) by (apply Z.mod_pos_bound; reflexivity).
+  set (C := hi * 18446744073709551616 + x0).
+  assert (HC : 0 < C < 10000000000000000000000000000000000) by (unfold C; lia).
+  set (be := (x1 / 562949953421312) mod 16384) in *.
+  assert (Hbe : 0 <= be <= 12287) by (unfold be, g5W in *; lia).
+  set (sb := (x1 / 9223372036854775808) mod 2) in *.
+  assert (Hsb : 0 <= sb <= 1) by (unfold sb; lia).
+  set (k := 6176 - be) in *.
+  assert (SMALL : forall r0 r1, be < 6176 -> C < 10 ^ k -> r0 = (if 1 <=? sb then 0 else 1) ->
+    r1 = sb * 9223372036854775808 + 3476778912330022912 -> rint_spec RUP false x0 x1 st (r0, r1, st)).
+  { intros r0 r1 Hb HS -> ->. apply (rint_leaf RUP false x0 x1 st _ _ _ 0 sb H0 H1 G24 HC Hb eq_refl).
+    - unfold in_u64. destruct (1 <=? sb); lia.
+    - lia.
+    - rewrite (rint_n_small RUP _ C k) by (split; [exact (proj1 HC)|exact HS]). destruct (1 <=? sb); reflexivity.
+    - lia.
+    - rewrite andb_false_r. reflexivity. }
+  step_if SM.
+  { assert (HS : C < 10 ^ k) by (apply Z.lt_le_trans with (10 ^ 34); [exact (proj2 HC)|apply Z.pow_le_mono_r; lia]).
+    step_if SGN; (apply SMALL; [lia|exact HS|destruct (Z.leb_spec 1 sb); lia|lia]). }
+  word_norm lia.
+  nbits_stage x0 hi C.
+  assert (Ee : wrap_i32 (wrap_u64 (be - 6176)) = be - 6176) by (unfold wrap_i32, wrap_u64; lia).
+  rewrite !Ee. clear Ee.
+  step_if EXP.
+  { apply rint_ident; [assumption|assumption|exact G24|exact HC|change (beW x1) with be; lia]. }
+  digits_stage x0 hi C.
+  pose proof (nd_range C HC) as Hnd. pose proof (nd_bounds C (proj1 HC)) as Bnd.
+  set (nd := ndigits C) in *.
+  assert (Hk : 1 <= k) by lia.
+  replace (be - 6176) with (- k) by (unfold k; ring). rewrite Z.opp_involutive.
+  wrap_ids lia.
+  step_if QE.
+  2: { assert (HS : C < 10 ^ k) by (apply Z.lt_le_trans with (10 ^ nd); [exact (proj2 Bnd)|apply Z.pow_le_mono_r; lia]).
+    step_if SGN; (apply SMALL; [lia|exact HS|destruct (Z.leb_spec 1 sb); lia|lia]). }
+  mul_stage x0 hi C k HC Hk H0.
+  set (K0 := nth (Z.to_nat (k - 1)) T_BID_TEN2MK128_w0 0) in *. set (K1 := nth (Z.to_nat (k - 1)) T_BID_TEN2MK128_w1 0) in *.
+  unfold in_u64 in RK0, RK1, P0, P1, P2, P3.
+  assert (EK : rk k = K1 * 18446744073709551616 + K0) by reflexivity. rewrite EK in T0. clear TH TL.
+  set (Q := C / 10 ^ k) in *. set (r := C mod 10 ^ k) in *.
+  set (N := if negb (1 <=? sb) && negb (r =? 0) then Q + 1 else Q).
+  assert (FIN : forall r0 h, r0 = N mod 18446744073709551616 /\ h = N / 18446744073709551616 ->
+    rint_spec RUP false x0 x1 st (r0, Z.lor h (Z.lor (sb * 9223372036854775808) 3476778912330022912), st)).
+  { intros r0 h [-> ->]. assert (HN : Q <= N <= Q + 1) by (unfold N; destruct (negb (1 <=? sb) && negb (r =? 0)); clear; lia).
+    rewrite lor_res by (clear - HN QB QQ; lia).
+    assert (Hb : be < 6176) by lia.
+    apply (rint_leaf RUP false x0 x1 st _ _ _ (N / 18446744073709551616) sb H0 H1 G24 HC Hb eq_refl).
+    - unfold in_u64. clear - HN QB QQ. lia.
+    - clear - HN QB QQ. lia.
+    - transitivity N; [clear; lia|reflexivity].
+    - reflexivity.
+    - rewrite andb_false_r. reflexivity. }
+  assert (Q64 : 23 <= k -> Q < 18446744073709551616).
+  { intros K23. apply Z.div_lt_upper_bound; [apply Z.pow_pos_nonneg; lia|].
+    assert (10 ^ 23 <= 10 ^ k) by (apply Z.pow_le_mono_r; lia). change (10 ^ 23) with 100000000000000000000000 in *. clear - H HC. lia. }
+  clearbody Q r. unfold rq_q, rq_a in *.
+  step_if K3.
+  { replace (k <=? 22) with true in * by lia. replace (k <=? 3) with true in * by lia.
+    replace (rs k) with 0 in * by (destruct (Z.eqb_spec (rs k) 0); [lia|exfalso; lia]). rewrite Z.div_1_r in QQ, QB. rewrite QQ in QB.
+    rewrite (ge_test0 p1 p0 K1 K0 r P0 P1 RK0 RK1 T0).
+    clear - FIN QQ QB Hsb P2 P3.
+    step_ifs; apply FIN; unfold N, wrap_u64; destruct (negb (1 <=? sb) && negb (r =? 0)) eqn:CN; split_ifs_eq; lia. }
+  step_if K22.
+  { replace (k <=? 22) with true in * by lia. replace (k <=? 3) with false in * by lia.
+    assert (Hs : 0 < rs k < 64) by (destruct (Z.eqb_spec (rs k) 0); destruct (Z.ltb_spec (rs k) 64); lia).
+    destruct (shr128_words p2 p3 (rs k) ltac:(unfold in_u64; lia) ltac:(unfold in_u64; lia) Hs) as [S1 S2]. cbv zeta in S1, S2. rewrite S1, S2.
+    rewrite (land_mask p2 k Hk34) by lia. rewrite (Z.mod_small (rs k) 64) by lia.
+    rewrite QQ in QB |- *. set (m := p2 mod 2 ^ rs k) in *.
+    rewrite (ge_test1 m p1 p0 K1 K0 r (proj1 QA) P0 P1 RK0 RK1 T0).
+    clear - FIN QQ QB Hsb.
+    step_ifs; apply FIN; unfold N, wrap_u64; destruct (negb (1 <=? sb) && negb (r =? 0)) eqn:CN; split_ifs_eq; lia. }
+  replace (k <=? 22) with false in * by lia. replace (k <=? 3) with false in * by lia.
+  assert (Hs : 64 <= rs k < 128) by (destruct (Z.ltb_spec (rs k) 64); lia).
+  rewrite (shr64_word p3 (rs k) Hs). rewrite (land_mask p3 k Hk34) by lia.
+  replace (rs k mod 64) with (rs k - 64) by (clear - Hs; lia).
+  specialize (Q64 ltac:(lia)).
+  rewrite QQ in QB |- *. set (m := p3 mod 2 ^ (rs k - 64)) in *.
+  assert (Hm : 0 <= m) by (apply Z.mod_pos_bound; apply Z.pow_pos_nonneg; lia).
+  rewrite (ge_test2 m p2 p1 p0 K1 K0 r Hm P2 P0 P1 RK0 RK1 T0).
+  clear - FIN QQ QB Hsb Q64.
+  step_ifs; apply FIN; unfold N, wrap_u64; destruct (negb (1 <=? sb) && negb (r =? 0)) eqn:CN; split_ifs_eq; lia.
+Qed.
+
+Lemma V_bid128_nearbyint_3 x0 x1 st : in_u64 x0 -> in_u64 x1 -> in_u32 st ->
+  rint_spec RTZ false x0 x1 st (i_bid128_nearbyint x0 x1 3 st).
+Proof.
+  intros H0 H1 Hst. unfold i_bid128_nearbyint. unfold_helpers. cbn [Z.eqb Pos.eqb orb]. red_lets.
+  pose proof H0 as H0'. pose proof H1 as H1'. unfold in_u64 in H0', H1'.
+  word_norm lia. mask_tests. pose proof (g5W_range x1) as R.
+  step_if B.
+  { (* NaN or infinity *)
+    step_if A.
+    - step_if EP; word_norm lia; step_if ES; rint_nan_leaf.
+    - step_if SG; (apply rint_inf; [assumption|assumption|lia|]; unfold sgZ; rewrite SG; reflexivity). }
+  step_if C24.
+  { step_if Z0. 2:{ discriminate Z0. } rint_zero_leaf x1 ltac:(left; lia). }
+  step_if NC.
+  { step_if Z0. 2:{ discriminate Z0. } rint_zero_leaf x1 ltac:(right; left; unfold hiW, T34; lia). }
+  step_if Z0.
+  { rint_zero_leaf x1 ltac:(right; right; unfold hiW; lia). }
+  set (hi := x1 mod 562949953421312) in *.
+  assert (Hhi : 0 <= hi < 562949953421312) by (apply Z.mod_pos_bound; reflexivity).
+  set (C := hi * 18446744073709551616 + x0).
+  assert (HC : 0 < C < 10000000000000000000000000000000000) by (unfold C; lia).
+  set (be := (x1 / 562949953421312) mod 16384) in *.
+  assert (Hbe : 0 <= be <= 12287) by (unfold be, g5W in *; lia).
+  assert (G24 : g5W x1 < 24) by lia.
+  assert (Ebe : beW x1 = be) by reflexivity. assert (Ehi : hiW x1 = hi) by reflexivity.
+  step_if SM.
+  { assert (QS : C / 10 ^ (6176 - be) = 0) by (apply (quot_small C 34); [exact HC|lia]).
+    apply (rint_general RTZ false x0 x1 st _ _ _ 0); try assumption; try lia; rewrite ?Ebe, ?Ehi; fold C; try exact HC; try lia.
+    - unfold in_u64; lia.
+    - unfold rint_n. cbv zeta. lia.
+    - unfold sgZ. rewrite lor_hi63 by lia. lia.
+    - rewrite andb_false_r. reflexivity. }
+  word_norm lia.
+  nbits_stage x0 hi C.
+  assert (Ee : wrap_i32 (wrap_u64 (be - 6176)) = be - 6176) by (unfold wrap_i32, wrap_u64; lia).
+  rewrite !Ee. clear Ee.
+  step_if EXP.
+  { apply rint_ident; try assumption; rewrite ?Ebe, ?Ehi; fold C; try exact HC; lia. }
+  digits_stage x0 hi C.
+  pose proof (nd_range C HC) as Hnd. pose proof (nd_bounds C (proj1 HC)) as Bnd.
+  set (nd := ndigits C) in *.
+  set (k := 6176 - be) in *. assert (Hk : 1 <= k) by lia.
+  replace (be - 6176) with (- k) by (unfold k; ring). rewrite Z.opp_involutive.
+  wrap_ids lia.
+  step_if QE.
+  2: { assert (QS : C / 10 ^ k = 0) by (apply (quot_small C nd); [lia|lia]).
+    apply (rint_general RTZ false x0 x1 st _ _ _ 0); try assumption; try lia; rewrite ?Ebe, ?Ehi; fold C; fold k; try exact HC; try lia.
+    - unfold in_u64; lia.
+    - unfold rint_n. cbv zeta. lia.
+    - unfold sgZ. rewrite lor_hi63 by lia. lia.
+    - rewrite andb_false_r. reflexivity. }
+  assert (Hk34 : 1 <= k <= 34) by lia.
+  destruct (rint_row k Hk34) as (RK0 & RK1 & RS & RB & RZ & RM & RE1 & RE2). cbv zeta in RS, RB, RZ, RM.
+  pose proof (R_mul_128x128_to_256 x0 hi _ _ H0 ltac:(unfold in_u64; lia) RK0 RK1) as MUL.
+  destruct (i___mul_128x128_to_256 _ _ _ _) as [[[p0 p1] p2] p3]. destruct MUL as (P0 & P1 & P2 & P3 & MUL).
+  change (hi * 18446744073709551616 + x0) with C in MUL. fold (rk k) in MUL.
+  destruct (rq_core k C p0 p1 p2 p3 Hk34 ltac:(lia) P0 P1 P2 P3 MUL) as (QQ & QA & _). cbv zeta in QA.
+  change (nth (Z.to_nat (k - 1)) T_BID_SHIFTRIGHT128 0) with (rs k).
+  pose proof (quot_bound C k HC Hk) as QB. rewrite <- QQ in QB.
+  assert (FIN : forall r0 h, in_u64 r0 -> 0 <= h -> h * 18446744073709551616 + r0 = rq_q k p2 p3 ->
+    rint_spec RTZ false x0 x1 st (r0, Z.lor h (Z.lor ((x1 / 9223372036854775808) mod 2 * 9223372036854775808) 3476778912330022912), st)).
+  { intros r0 h R0 Hh E. assert (h < 562949953421312) by (unfold in_u64 in R0; lia).
+    apply (rint_general RTZ false x0 x1 st _ _ _ h); try assumption; try lia; rewrite ?Ebe, ?Ehi; fold C; fold k; try exact HC; try lia.
+    - unfold rint_n. cbv zeta. lia.
+    - unfold sgZ. rewrite lor_res by lia. reflexivity.
+    - rewrite andb_false_r. reflexivity. }
+  unfold rq_q in *. cbv beta iota.
+  step_if K3.
+  { apply FIN; [exact P2|unfold in_u64 in P3; lia|]. replace (k <=? 22) with true by lia.
+    replace (rs k) with 0 by (destruct (Z.eqb_spec (rs k) 0); [lia|exfalso; lia]). rewrite Z.div_1_r. reflexivity. }
+  step_if K22.
+  { replace (k <=? 22) with true in * by lia.
+    assert (Hs : 0 < rs k < 64) by (destruct (Z.eqb_spec (rs k) 0); destruct (Z.ltb_spec (rs k) 64); lia).
+    destruct (shr128_words p2 p3 (rs k) P2 P3 Hs) as [S1 S2]. cbv zeta in S1, S2. rewrite S1, S2.
+    destruct (words_split ((p3 * 18446744073709551616 + p2) / 2 ^ rs k) ltac:(lia)) as (W1 & W2 & W3).
+    apply FIN; assumption. }
+  replace (k <=? 22) with false in * by lia.
+  assert (Hs : 64 <= rs k < 128) by (destruct (Z.ltb_spec (rs k) 64); lia).
+  rewrite (shr64_word p3 (rs k) Hs).
+  set (q3 := p3 / 2 ^ (rs k - 64)) in *. clearbody q3.
+  assert (Q64 : q3 < 18446744073709551616).
+  { rewrite QQ. apply Z.div_lt_upper_bound; [apply Z.pow_pos_nonneg; lia|].
+    assert (10 ^ 23 <= 10 ^ k) by (apply Z.pow_le_mono_r; lia). change (10 ^ 23) with 100000000000000000000000 in *. clear - H HC. lia. }
+  apply (FIN _ 0); [clear - QB Q64; unfold in_u64; lia|apply Z.le_refl|ring].
+Qed.
+
+Lemma V_bid128_nearbyint_4 x0 x1 st : in_u64 x0 -> in_u64 x1 -> in_u32 st ->
+  rint_spec RNA false x0 x1 st (i_bid128_nearbyint x0 x1 4 st).
+Proof.
+  intros H0 H1 Hst. unfold i_bid128_nearbyint. unfold_helpers. cbn [Z.eqb Pos.eqb orb]. red_lets.
+  pose proof H0 as H0'. pose proof H1 as H1'. unfold in_u64 in H0', H1'.
+  word_norm lia. mask_tests. pose proof (g5W_range x1) as R.
+  step_if B.
+  { (* NaN or infinity *)
+    step_if A.
+    - step_if EP; word_norm lia; step_if ES; rint_nan_leaf.
+    - step_if SG; (apply rint_inf; [assumption|assumption|lia|]; unfold sgZ; rewrite SG; reflexivity). }
+  step_if C24.
+  { step_if Z0. 2:{ discriminate Z0. } rint_zero_leaf x1 ltac:(left; lia). }
+  step_if NC.
+  { step_if Z0. 2:{ discriminate Z0. } rint_zero_leaf x1 ltac:(right; left; unfold hiW, T34; lia). }
+  step_if Z0.
+  { rint_zero_leaf x1 ltac:(right; right; unfold hiW; lia). }
+  assert (G24 : g5W x1 < 24) by lia.
+  set (hi := x1 mod 562949953421312) in *.
+  assert (Hhi : 0 <= hi < 562949953421312) by (apply Z.mod_pos_bound; reflexivity).
+  set (C := hi * 18446744073709551616 + x0).
+  assert (HC : 0 < C < 10000000000000000000000000000000000) by (unfold C; lia).
+  set (be := (x1 / 562949953421312) mod 16384) in *.
+  assert (Hbe : 0 <= be <= 12287) by (unfold be, g5W in *; lia).
+  set (sb := (x1 / 9223372036854775808) mod 2) in *.
+  assert (Hsb : 0 <= sb <= 1) by (unfold sb; lia).
+  set (k := 6176 - be) in *.
+  assert (SMALL : be < 6176 -> 2 * C < 10 ^ k ->
+    rint_spec RNA false x0 x1 st (0, Z.lor (sb * 9223372036854775808) 3476778912330022912, st)).
+  { intros Hb HS. rewrite lor_hi63 by lia. apply (rint_leaf RNA false x0 x1 st _ _ _ 0 sb H0 H1 G24 HC Hb eq_refl).
+    - unfold in_u64. lia.
+    - lia.
+    - rewrite (rint_n_small RNA _ C k) by (split; [exact (proj1 HC)|lia]). replace (10 ^ k <=? 2 * C) with false by lia. reflexivity.
+    - lia.
+    - rewrite andb_false_r. reflexivity. }
+  step_if SM.
+  { apply SMALL; [lia|]. apply Z.lt_le_trans with (10 ^ 35); [change (10 ^ 35) with 100000000000000000000000000000000000; lia|apply Z.pow_le_mono_r; lia]. }
+  word_norm lia.
+  nbits_stage x0 hi C.
+  assert (Ee : wrap_i32 (wrap_u64 (be - 6176)) = be - 6176) by (unfold wrap_i32, wrap_u64; lia).
+  rewrite !Ee. clear Ee.
+  step_if EXP.
+  { apply rint_ident; [assumption|assumption|exact G24|exact HC|change (beW x1) with be; lia]. }
+  digits_stage x0 hi C.
+  pose proof (nd_range C HC) as Hnd. pose proof (nd_bounds C (proj1 HC)) as Bnd.
+  set (nd := ndigits C) in *.
+  assert (Hk : 1 <= k) by lia.
+  replace (be - 6176) with (- k) by (unfold k; ring). rewrite Z.opp_involutive.
+  wrap_ids lia.
+  step_if QE.
+  2: { apply SMALL; [lia|]. assert (10 ^ nd <= 10 ^ (k - 1)) by (apply Z.pow_le_mono_r; lia).
+    replace k with (Z.succ (k - 1)) at 1 by lia. rewrite Z.pow_succ_r by lia. lia. }
+  assert (Hk34 : 1 <= k <= 34) by lia.
+  destruct (mid_words k Hk34) as (HM & M19 & M20). cbv zeta in HM, M19, M20.
+  set (M := 5 * 10 ^ (k - 1)) in *.
+  set (m0 := M mod 18446744073709551616). set (m1 := M / 18446744073709551616).
+  goal_term ltac:(fun t => let h := spine_head t in assert (EH : h = (wrap_u64 (x0 + m0), hi + m1))).
+  { destruct (Z.leb_spec k 19) as [K19|K19].
+    - destruct (M19 K19) as [E1 E2]. rewrite E1. unfold m0, m1. clearbody M. f_equal; [f_equal|]; lia.
+    - destruct (M20 ltac:(lia)) as [E1 E2]. rewrite (wrap_usize_id (k - 20)) by (unfold in_u64; lia).
+      set (w0 := nth (Z.to_nat (k - 20)) T_BID_MIDPOINT128_w0 0) in *. set (w1 := nth (Z.to_nat (k - 20)) T_BID_MIDPOINT128_w1 0) in *.
+      unfold m0, m1, wrap_u64, in_u64 in *. clearbody M w0 w1. f_equal; [f_equal|]; lia. }
+  rewrite EH. clear EH. cbv beta iota.
+  set (c0 := wrap_u64 (x0 + m0)). set (c1 := if c0 <? x0 then wrap_u64 (hi + m1 + 1) else hi + m1).
+  set (C' := C + M).
+  assert (EC : c1 * 18446744073709551616 + c0 = C' /\ in_u64 c0 /\ in_u64 c1).
+  { unfold c1, c0, C', C, m0, m1, wrap_u64, in_u64. clearbody M. destruct (Z.ltb_spec ((x0 + M mod 18446744073709551616) mod 18446744073709551616) x0); lia. }
+  destruct EC as (EC & HC0 & HC1).
+  assert (HCb : 0 <= C' <= 20000000000000000000000000000000000) by (unfold C'; lia).
+  mul_stage_gen c0 c1 C' k EC HC0 HC1 HCb Hk34.
+  set (K0 := nth (Z.to_nat (k - 1)) T_BID_TEN2MK128_w0 0) in *. set (K1 := nth (Z.to_nat (k - 1)) T_BID_TEN2MK128_w1 0) in *.
+  unfold in_u64 in RK0, RK1, P0, P1, P2, P3.
+  assert (EK : rk k = K1 * 18446744073709551616 + K0) by reflexivity. rewrite EK in T0. clear TH TL.
+  set (Q := C' / 10 ^ k) in *. set (r := C' mod 10 ^ k) in *.
+  set (N := Q).
+  assert (EN : rint_n RNA (1 <=? sb) C k = N) by (apply (rna_form (1 <=? sb) C k); lia).
+  assert (QB : 0 <= Q < 2000000000000000000000000000000000).
+  { unfold Q. split; [apply Z.div_pos; [lia|apply Z.pow_pos_nonneg; lia]|]. apply Z.div_lt_upper_bound; [apply Z.pow_pos_nonneg; lia|].
+    assert (10 <= 10 ^ k) by (change 10 with (10 ^ 1) at 1; apply Z.pow_le_mono_r; lia).
+    assert (C' < 20000000000000000000000000000000000) by (unfold C'; clear - HC HM; lia).
+    set (D := 10 ^ k) in *. clearbody D. clear - H H2. lia. }
+  assert (FIN : forall r0 h, r0 = N mod 18446744073709551616 /\ h = N / 18446744073709551616 ->
+    rint_spec RNA false x0 x1 st (r0, Z.lor h (Z.lor (sb * 9223372036854775808) 3476778912330022912), st)).
+  { intros r0 h [-> ->]. unfold N.
+    rewrite lor_res by (clear - QB; lia).
+    assert (Hb : be < 6176) by lia.
+    apply (rint_leaf RNA false x0 x1 st _ _ _ (Q / 18446744073709551616) sb H0 H1 G24 HC Hb eq_refl).
+    - unfold in_u64. clear - QB. lia.
+    - clear - QB. lia.
+    - transitivity N; [unfold N; clear; lia|symmetry; exact EN].
+    - reflexivity.
+    - rewrite andb_false_r. reflexivity. }
+  assert (Q64 : 23 <= k -> Q < 18446744073709551616).
+  { intros K23. apply Z.div_lt_upper_bound; [apply Z.pow_pos_nonneg; lia|].
+    assert (10 ^ 23 <= 10 ^ k) by (apply Z.pow_le_mono_r; lia). change (10 ^ 23) with 100000000000000000000000 in *. clear - H HCb. lia. }
+  clear EN. clearbody Q r. unfold rq_q, rq_a in *.
+  step_if K3.
+  { replace (k <=? 22) with true in * by lia.
+    replace (rs k) with 0 in * by (destruct (Z.eqb_spec (rs k) 0); [lia|exfalso; lia]). rewrite Z.div_1_r in QQ.
+    clear - FIN QQ QB P2 P3.
+    apply FIN; unfold N; lia. }
+  step_if K22.
+  { replace (k <=? 22) with true in * by lia.
+    assert (Hs : 0 < rs k < 64) by (destruct (Z.eqb_spec (rs k) 0); destruct (Z.ltb_spec (rs k) 64); lia).
+    destruct (shr128_words p2 p3 (rs k) ltac:(unfold in_u64; lia) ltac:(unfold in_u64; lia) Hs) as [S1 S2]. cbv zeta in S1, S2. rewrite S1, S2.
+    rewrite QQ. apply FIN; unfold N; split; reflexivity. }
+  replace (k <=? 22) with false in * by lia.
+  assert (Hs : 64 <= rs k < 128) by (destruct (Z.ltb_spec (rs k) 64); lia).
+  rewrite (shr64_word p3 (rs k) Hs).
+  specialize (Q64 ltac:(lia)).
+  rewrite QQ. clear - FIN QB Q64.
+  apply FIN; unfold N; lia.
+Qed.
+
+Lemma OK_bid128_nearbyint_0 x0 x1 st : in_u64 x0 -> in_u64 x1 -> in_u32 st -> ok_bid128_nearbyint x0 x1 0 st = true.
+Proof.
+  intros H0 H1 Hst. unfold ok_bid128_nearbyint. unfold_helpers. cbn [Z.eqb Pos.eqb orb]. red_lets.
+  pose proof H0 as H0'. pose proof H1 as H1'. unfold in_u64 in H0', H1'.
+  word_norm lia. mask_tests. pose proof (g5W_range x1) as R.
+  step_if B. { step_ifs; reflexivity. }
+  step_if C24. { step_if Z0; [step_ifs; reflexivity|discriminate Z0]. }
+  step_if NC. { step_if Z0; [step_ifs; reflexivity|discriminate Z0]. }
+  step_if Z0. { step_ifs; reflexivity. }
+  step_if SM. { step_ifs; reflexivity. }
+  set (hi := x1 mod 562949953421312) in *.
+  assert (Hhi : 0 <= hi < 562949953421312) by (apply Z.mod_pos_bound; reflexivity).
+  set (C := hi * 18446744073709551616 + x0).
+  assert (HC : 0 < C < 10000000000000000000000000000000000) by (unfold C; lia).
+  set (be := (x1 / 562949953421312) mod 16384) in *.
+  assert (Hbe : 0 <= be <= 12287) by (unfold be, g5W in *; lia).
+  word_norm lia.
+  nbits_stage_ok x0 hi C.
+  digits_stage_ok x0 hi C.
+  assert (Ee : wrap_i32 (wrap_u64 (be - 6176)) = be - 6176) by (unfold wrap_i32, wrap_u64; lia).
+  rewrite !Ee. clear Ee.
+  step_if EXP. { reflexivity. }
+  pose proof (nd_range C HC) as Hnd. set (nd := ndigits C) in *.
+  set (k := 6176 - be) in *. assert (Hk : 1 <= k) by lia.
+  replace (be - 6176) with (- k) by (unfold k; ring). rewrite Z.opp_involutive.
+  wrap_ids lia.
+  step_if QE. 2:{ step_ifs; reflexivity. }
+  assert (Hk34 : 1 <= k <= 34) by lia.
+  destruct (rint_row k Hk34) as (RK0 & RK1 & RS & RB & RZ & _). cbv zeta in RS, RB, RZ.
+  change (nth (Z.to_nat (k - 1)) T_BID_SHIFTRIGHT128 0) with (rs k).
+  assert (F2 : 4 <= k <= 22 -> 0 < rs k < 64) by (intros; destruct (Z.eqb_spec (rs k) 0); destruct (Z.ltb_spec (rs k) 64); lia).
+  assert (F3 : 23 <= k -> 64 <= rs k < 128) by (intros; destruct (Z.ltb_spec (rs k) 64); lia).
+  clear RB RZ HC Hnd NC Z0 SM C24 B R.
+  replace ((0 <=? k - 1) && (k - 1 <? 34)) with true by lia. cbn [andb]. repeat rewrite if_tt.
+  ok_spine ltac:(wrap_ids lia; lia).
+Qed.
+
+Lemma OK_bid128_nearbyint_1 x0 x1 st : in_u64 x0 -> in_u64 x1 -> in_u32 st -> ok_bid128_nearbyint x0 x1 1 st = true.
+Proof.
+  intros H0 H1 Hst. unfold ok_bid128_nearbyint. unfold_helpers. cbn [Z.eqb Pos.eqb orb]. red_lets.
+  pose proof H0 as H0'. pose proof H1 as H1'. unfold in_u64 in H0', H1'.
+  word_norm lia. mask_tests. pose proof (g5W_range x1) as R.
+  step_if B. { step_ifs; reflexivity. }
+  step_if C24. { step_if Z0; [step_ifs; reflexivity|discriminate Z0]. }
+  step_if NC. { step_if Z0; [step_ifs; reflexivity|discriminate Z0]. }
+  step_if Z0. { step_ifs; reflexivity. }
+  step_if SM. { step_ifs; reflexivity. }
+  set (hi := x1 mod 562949953421312) in *.
+  assert (Hhi : 0 <= hi < 562949953421312) by (apply Z.mod_pos_bound; reflexivity).
+  set (C := hi * 18446744073709551616 + x0).
+  assert (HC : 0 < C < 10000000000000000000000000000000000) by (unfold C; lia).
+  set (be := (x1 / 562949953421312) mod 16384) in *.
+  assert (Hbe : 0 <= be <= 12287) by (unfold be, g5W in *; lia).
+  word_norm lia.
+  nbits_stage_ok x0 hi C.
+  digits_stage_ok x0 hi C.
+  assert (Ee : wrap_i32 (wrap_u64 (be - 6176)) = be - 6176) by (unfold wrap_i32, wrap_u64; lia).
+  rewrite !Ee. clear Ee.
+  step_if EXP. { reflexivity. }
+  pose proof (nd_range C HC) as Hnd. set (nd := ndigits C) in *.
+  set (k := 6176 - be) in *. assert (Hk : 1 <= k) by lia.
+  replace (be - 6176) with (- k) by (unfold k; ring). rewrite Z.opp_involutive.
+  wrap_ids lia.
+  step_if QE. 2:{ step_ifs; reflexivity. }
+  assert (Hk34 : 1 <= k <= 34) by lia.
+  destruct (rint_row k Hk34) as (RK0 & RK1 & RS & RB & RZ & _). cbv zeta in RS, RB, RZ.
+  change (nth (Z.to_nat (k - 1)) T_BID_SHIFTRIGHT128 0) with (rs k).
+  assert (F2 : 4 <= k <= 22 -> 0 < rs k < 64) by (intros; destruct (Z.eqb_spec (rs k) 0); destruct (Z.ltb_spec (rs k) 64); lia).
+  assert (F3 : 23 <= k -> 64 <= rs k < 128) by (intros; destruct (Z.ltb_spec (rs k) 64); lia).
+  clear RB RZ HC Hnd NC Z0 SM C24 B R.
+  guard_true lia.
+  destruct (i___mul_128x128_to_256 _ _ _ _) as [[[p0 p1] p2] p3]. cbv beta iota.
+  ok_walk ltac:(wrap_ids lia; lia).
+Qed.
+
+Lemma OK_bid128_nearbyint_2 x0 x1 st : in_u64 x0 -> in_u64 x1 -> in_u32 st -> ok_bid128_nearbyint x0 x1 2 st = true.
+Proof.
+  intros H0 H1 Hst. unfold ok_bid128_nearbyint. unfold_helpers. cbn [Z.eqb Pos.eqb orb]. red_lets.
+  pose proof H0 as H0'. pose proof H1 as H1'. unfold in_u64 in H0', H1'.
+  word_norm lia. mask_tests. pose proof (g5W_range x1) as R.
+  step_if B. { step_ifs; reflexivity. }
+  step_if C24. { step_if Z0; [step_ifs; reflexivity|discriminate Z0]. }
+  step_if NC. { step_if Z0; [step_ifs; reflexivity|discriminate Z0]. }
+  step_if Z0. { step_ifs; reflexivity. }
+  step_if SM. { step_ifs; reflexivity. }
+  set (hi := x1 mod 562949953421312) in *.
+  assert (Hhi : 0 <= hi < 562949953421312) by (apply Z.mod_pos_bound; reflexivity).
+  set (C := hi * 18446744073709551616 + x0).
+  assert (HC : 0 < C < 10000000000000000000000000000000000) by (unfold C; lia).
+  set (be := (x1 / 562949953421312) mod 16384) in *.
+  assert (Hbe : 0 <= be <= 12287) by (unfold be, g5W in *; lia).
+  word_norm lia.
+  nbits_stage_ok x0 hi C.
+  digits_stage_ok x0 hi C.
+  assert (Ee : wrap_i32 (wrap_u64 (be - 6176)) = be - 6176) by (unfold wrap_i32, wrap_u64; lia).
+  rewrite !Ee. clear Ee.
+  step_if EXP. { reflexivity. }
+  pose proof (nd_range C HC) as Hnd. set (nd := ndigits C) in *.
+  set (k := 6176 - be) in *. assert (Hk : 1 <= k) by lia.
+  replace (be - 6176) with (- k) by (unfold k; ring). rewrite Z.opp_involutive.
+  wrap_ids lia.
+  step_if QE. 2:{ step_ifs; reflexivity. }
+  assert (Hk34 : 1 <= k <= 34) by lia.
+  destruct (rint_row k Hk34) as (RK0 & RK1 & RS & RB & RZ & _). cbv zeta in RS, RB, RZ.
+  change (nth (Z.to_nat (k - 1)) T_BID_SHIFTRIGHT128 0) with (rs k).
+  assert (F2 : 4 <= k <= 22 -> 0 < rs k < 64) by (intros; destruct (Z.eqb_spec (rs k) 0); destruct (Z.ltb_spec (rs k) 64); lia).
+  assert (F3 : 23 <= k -> 64 <= rs k < 128) by (intros; destruct (Z.ltb_spec (rs k) 64); lia).
+  clear RB RZ HC Hnd NC Z0 SM C24 B R.
+  guard_true lia.
+  destruct (i___mul_128x128_to_256 _ _ _ _) as [[[p0 p1] p2] p3]. cbv beta iota.
+  ok_walk ltac:(wrap_ids lia; lia).
+Qed.
+
+Lemma OK_bid128_nearbyint_3 x0 x1 st : in_u64 x0 -> in_u64 x1 -> in_u32 st -> ok_bid128_nearbyint x0 x1 3 st = true.
+Proof.
+  intros H0 H1 Hst. unfold ok_bid128_nearbyint. unfold_helpers. cbn [Z.eqb Pos.eqb orb]. red_lets.
+  pose proof H0 as H0'. pose proof H1 as H1'. unfold in_u64 in H0', H1'.
+  word_norm lia. mask_tests. pose proof (g5W_range x1) as R.
+  step_if B. { step_ifs; reflexivity. }
+  step_if C24. { step_if Z0; [reflexivity|discriminate Z0]. }
+  step_if NC. { step_if Z0; [reflexivity|discriminate Z0]. }
+  step_if Z0. { reflexivity. }
+  step_if SM. { reflexivity. }
+  set (hi := x1 mod 562949953421312) in *.
+  assert (Hhi : 0 <= hi < 562949953421312) by (apply Z.mod_pos_bound; reflexivity).
+  set (C := hi * 18446744073709551616 + x0).
+  assert (HC : 0 < C < 10000000000000000000000000000000000) by (unfold C; lia).
+  set (be := (x1 / 562949953421312) mod 16384) in *.
+  assert (Hbe : 0 <= be <= 12287) by (unfold be, g5W in *; lia).
+  word_norm lia.
+  nbits_stage_ok x0 hi C.
+  digits_stage_ok x0 hi C.
+  assert (Ee : wrap_i32 (wrap_u64 (be - 6176)) = be - 6176) by (unfold wrap_i32, wrap_u64; lia).
+  rewrite !Ee. clear Ee.
+  step_if EXP. { reflexivity. }
+  pose proof (nd_range C HC) as Hnd. set (nd := ndigits C) in *.
+  set (k := 6176 - be) in *. assert (Hk : 1 <= k) by lia.
+  replace (be - 6176) with (- k) by (unfold k; ring). rewrite Z.opp_involutive.
+  wrap_ids lia.
+  step_if QE. 2:{ reflexivity. }
+  assert (Hk34 : 1 <= k <= 34) by lia.
+  destruct (rint_row k Hk34) as (RK0 & RK1 & RS & RB & RZ & _). cbv zeta in RS, RB, RZ.
+  change (nth (Z.to_nat (k - 1)) T_BID_SHIFTRIGHT128 0) with (rs k).
+  guard_true lia.
+  destruct (i___mul_128x128_to_256 _ _ _ _) as [[[p0 p1] p2] p3]. cbv beta iota.
+  step_if K3. { reflexivity. }
+  step_if K22.
+  { assert (Hs : 0 < rs k < 64) by (destruct (Z.eqb_spec (rs k) 0); destruct (Z.ltb_spec (rs k) 64); lia).
+    guard_true lia. wrap_ids lia. guard_true lia. reflexivity. }
+  assert (Hs : 64 <= rs k < 128) by (destruct (Z.ltb_spec (rs k) 64); lia).
+  wrap_ids lia. guard_true lia. reflexivity.
+Qed.
+
+Lemma OK_bid128_nearbyint_4 x0 x1 st : in_u64 x0 -> in_u64 x1 -> in_u32 st -> ok_bid128_nearbyint x0 x1 4 st = true.
+Proof.
+  intros H0 H1 Hst. unfold ok_bid128_nearbyint. unfold_helpers. cbn [Z.eqb Pos.eqb orb]. red_lets.
+  pose proof H0 as H0'. pose proof H1 as H1'. unfold in_u64 in H0', H1'.
+  word_norm lia. mask_tests. pose proof (g5W_range x1) as R.
+  step_if B. { step_ifs; reflexivity. }
+  step_if C24. { step_if Z0; [step_ifs; reflexivity|discriminate Z0]. }
+  step_if NC. { step_if Z0; [step_ifs; reflexivity|discriminate Z0]. }
+  step_if Z0. { step_ifs; reflexivity. }
+  step_if SM. { step_ifs; reflexivity. }
+  set (hi := x1 mod 562949953421312) in *.
+  assert (Hhi : 0 <= hi < 562949953421312) by (apply Z.mod_pos_bound; reflexivity).
+  set (C := hi * 18446744073709551616 + x0).
+  assert (HC : 0 < C < 10000000000000000000000000000000000) by (unfold C; lia).
+  set (be := (x1 / 562949953421312) mod 16384) in *.
+  assert (Hbe : 0 <= be <= 12287) by (unfold be, g5W in *; lia).
+  word_norm lia.
+  nbits_stage_ok x0 hi C.
+  digits_stage_ok x0 hi C.
+  assert (Ee : wrap_i32 (wrap_u64 (be - 6176)) = be - 6176) by (unfold wrap_i32, wrap_u64; lia).
+  rewrite !Ee. clear Ee.
+  step_if EXP. { reflexivity. }
+  pose proof (nd_range C HC) as Hnd. set (nd := ndigits C) in *.
+  set (k := 6176 - be) in *. assert (Hk : 1 <= k) by lia.
+  replace (be - 6176) with (- k) by (unfold k; ring). rewrite Z.opp_involutive.
+  wrap_ids lia.
+  step_if QE. 2:{ step_ifs; reflexivity. }
+  assert (Hk34 : 1 <= k <= 34) by lia.
+  destruct (rint_row k Hk34) as (RK0 & RK1 & RS & RB & RZ & _). cbv zeta in RS, RB, RZ.
+  change (nth (Z.to_nat (k - 1)) T_BID_SHIFTRIGHT128 0) with (rs k).
+  assert (F2 : 4 <= k <= 22 -> 0 < rs k < 64) by (intros; destruct (Z.eqb_spec (rs k) 0); destruct (Z.ltb_spec (rs k) 64); lia).
+  assert (F3 : 23 <= k -> 64 <= rs k < 128) by (intros; destruct (Z.ltb_spec (rs k) 64); lia).
+  clear RB RZ HC Hnd NC Z0 SM C24 B R.
+  replace ((0 <=? k - 1) && (k - 1 <? 34)) with true by lia. cbn [andb]. repeat rewrite if_tt.
+  ok_spine ltac:(wrap_ids lia; lia).
+Qed.
+
+
+Theorem I_bid128_nearbyint x0 x1 rnd st : in_u64 x0 -> in_u64 x1 -> 0 <= rnd <= 4 -> in_u32 st ->
+  ok_bid128_nearbyint x0 x1 rnd st = true /\
   let '(r0, r1, st') := i_bid128_nearbyint x0 x1 rnd st in
   in_u64 r0 /\ in_u64 r1 /\ exists fl, rint_dec (md_of rnd) false (pat x0 x1) = [([pat r0 r1], fl)] /\ st' = Z.lor st fl.
 Proof.
-  intros H0 H1 Hrnd Hst HPRE. change (rint_spec (md_of rnd) false x0 x1 st (i_bid128_nearbyint x0 x1 rnd st)).
+  intros H0 H1 Hrnd Hst.
   assert (CASES : rnd = 0 \/ rnd = 1 \/ rnd = 2 \/ rnd = 3 \/ rnd = 4) by lia.
-  unfold i_bid128_nearbyint. unfold_helpers.
-  destruct CASES as [-> | [-> | [-> | [-> | ->]]]]; cbn [md_of Z.eqb Pos.eqb orb].
-  - red_lets.
-    pose proof H0 as H0'; pose proof H1 as H1'; unfold in_u64 in H0', H1'.
-    word_norm lia; mask_tests; pose proof (g5W_range x1) as R.
-    step_if B.
-    { step_if A.
-      - step_if EP; word_norm lia; step_if ES; rint_nan_leaf.
-      - step_if SG; (apply rint_inf; [assumption|assumption|lia|]; unfold sgZ; rewrite SG; reflexivity). }
-    step_if C24. { step_if Z0; [rint_zero_leaf x1 ltac:(left; lia)|exfalso; lia]. }
-    step_if NC. { step_if Z0; [rint_zero_leaf x1 ltac:(right; left; unfold hiW, T34; lia)|exfalso; lia]. }
-    step_if Z0. { rint_zero_leaf x1 ltac:(right; right; unfold hiW; lia). }
-    assert (G24 : g5W x1 < 24) by lia.
-    set (hi := x1 mod 562949953421312) in *.
-    assert (Hhi : 0 <= hi < 562949953421312) by (apply Z.mod_pos_bound; reflexivity).
-    set (C := hi * 18446744073709551616 + x0).
-    assert (HC : 0 < C < 10000000000000000000000000000000000) by (unfold C; lia).
-    set (be := (x1 / 562949953421312) mod 16384) in *.
-    assert (Hbe : 0 <= be <= 12287) by (unfold be, g5W in *; lia).
-    set (sb := (x1 / 9223372036854775808) mod 2) in *.
-    assert (Hsb : 0 <= sb <= 1) by (unfold sb; lia).
-    set (k := 6176 - be) in *.
-    assert (PRE : 6176 <= be \/ be <= 6141).
-    { destruct (HPRE _ _ _ (decode_can x0 x1 H0 H1 G24 HC)) as [X|[X|X]]; change (beW x1) with be in X; change (hiW x1 * 18446744073709551616 + x0) with C in X; lia. }
-    assert (SMALL : forall r0 r1, be <= 6141 -> r0 = rint_n RNE (1 <=? sb) C k ->
-      r1 = sb * 9223372036854775808 + 3476778912330022912 -> rint_spec RNE false x0 x1 st (r0, r1, st)).
-    { intros r0 r1 Hb -> ->.
-      assert (HS : 2 * C < 10 ^ k).
-      { apply Z.lt_le_trans with (10 ^ 35); [change (10 ^ 35) with 100000000000000000000000000000000000; lia|apply Z.pow_le_mono_r; lia]. }
-      assert (Hb' : be < 6176) by lia.
-      assert (HCk : 0 < C < 10 ^ k) by lia.
-      apply (rint_leaf RNE false x0 x1 st _ _ _ 0 sb H0 H1 G24 HC Hb' eq_refl).
-      - rewrite (rint_n_small RNE _ C k HCk). unfold in_u64. repeat match goal with |- context [if ?c then _ else _] => destruct c end; lia.
-      - lia.
-      - reflexivity.
-      - lia.
-      - rewrite andb_false_r. reflexivity. }
-    step_if SM.
-    { assert (HS : 2 * C < 10 ^ k).
-      { apply Z.lt_le_trans with (10 ^ 35); [change (10 ^ 35) with 100000000000000000000000000000000000; lia|apply Z.pow_le_mono_r; lia]. }
-      assert (HCk : 0 < C < 10 ^ k) by lia.
-      apply SMALL; [lia|rewrite (rint_n_small RNE _ C k HCk); repeat match goal with |- context [if ?c then _ else _] => destruct c eqn:? end; lia|rewrite lor_hi63 by lia; reflexivity]. }
-    word_norm lia.
-    nbits_stage x0 hi C.
-    assert (Ee : wrap_i32 (wrap_u64 (be - 6176)) = be - 6176) by (unfold wrap_i32, wrap_u64; lia).
-    rewrite !Ee. clear Ee.
-    step_if EXP; [|exfalso; lia].
-    apply rint_ident; [assumption|assumption|exact G24|exact HC|change (beW x1) with be; lia].
-  - red_lets.
-    pose proof H0 as H0'; pose proof H1 as H1'; unfold in_u64 in H0', H1'.
-    word_norm lia; mask_tests; pose proof (g5W_range x1) as R.
-    step_if B.
-    { step_if A.
-      - step_if EP; word_norm lia; step_if ES; rint_nan_leaf.
-      - step_if SG; (apply rint_inf; [assumption|assumption|lia|]; unfold sgZ; rewrite SG; reflexivity). }
-    step_if C24. { step_if Z0; [rint_zero_leaf x1 ltac:(left; lia)|exfalso; lia]. }
-    step_if NC. { step_if Z0; [rint_zero_leaf x1 ltac:(right; left; unfold hiW, T34; lia)|exfalso; lia]. }
-    step_if Z0. { rint_zero_leaf x1 ltac:(right; right; unfold hiW; lia). }
-    assert (G24 : g5W x1 < 24) by lia.
-    set (hi := x1 mod 562949953421312) in *.
-    assert (Hhi : 0 <= hi < 562949953421312) by (apply Z.mod_pos_bound; reflexivity).
-    set (C := hi * 18446744073709551616 + x0).
-    assert (HC : 0 < C < 10000000000000000000000000000000000) by (unfold C; lia).
-    set (be := (x1 / 562949953421312) mod 16384) in *.
-    assert (Hbe : 0 <= be <= 12287) by (unfold be, g5W in *; lia).
-    set (sb := (x1 / 9223372036854775808) mod 2) in *.
-    assert (Hsb : 0 <= sb <= 1) by (unfold sb; lia).
-    set (k := 6176 - be) in *.
-    assert (PRE : 6176 <= be \/ be <= 6141).
-    { destruct (HPRE _ _ _ (decode_can x0 x1 H0 H1 G24 HC)) as [X|[X|X]]; change (beW x1) with be in X; change (hiW x1 * 18446744073709551616 + x0) with C in X; lia. }
-    assert (SMALL : forall r0 r1, be <= 6141 -> r0 = rint_n RDN (1 <=? sb) C k ->
-      r1 = sb * 9223372036854775808 + 3476778912330022912 -> rint_spec RDN false x0 x1 st (r0, r1, st)).
-    { intros r0 r1 Hb -> ->.
-      assert (HS : 2 * C < 10 ^ k).
-      { apply Z.lt_le_trans with (10 ^ 35); [change (10 ^ 35) with 100000000000000000000000000000000000; lia|apply Z.pow_le_mono_r; lia]. }
-      assert (Hb' : be < 6176) by lia.
-      assert (HCk : 0 < C < 10 ^ k) by lia.
-      apply (rint_leaf RDN false x0 x1 st _ _ _ 0 sb H0 H1 G24 HC Hb' eq_refl).
-      - rewrite (rint_n_small RDN _ C k HCk). unfold in_u64. repeat match goal with |- context [if ?c then _ else _] => destruct c end; lia.
-      - lia.
-      - reflexivity.
-      - lia.
-      - rewrite andb_false_r. reflexivity. }
-    step_if SM.
-    { assert (HS : 2 * C < 10 ^ k).
-      { apply Z.lt_le_trans with (10 ^ 35); [change (10 ^ 35) with 100000000000000000000000000000000000; lia|apply Z.pow_le_mono_r; lia]. }
-      assert (HCk : 0 < C < 10 ^ k) by lia.
-      step_if SGN; (apply SMALL; [lia|rewrite (rint_n_small RDN _ C k HCk); destruct (Z.leb_spec 1 sb); lia|lia]). }
-    word_norm lia.
-    nbits_stage x0 hi C.
-    assert (Ee : wrap_i32 (wrap_u64 (be - 6176)) = be - 6176) by (unfold wrap_i32, wrap_u64; lia).
-    rewrite !Ee. clear Ee.
-    step_if EXP; [|exfalso; lia].
-    apply rint_ident; [assumption|assumption|exact G24|exact HC|change (beW x1) with be; lia].
-  - red_lets.
-    pose proof H0 as H0'; pose proof H1 as H1'; unfold in_u64 in H0', H1'.
-    word_norm lia; mask_tests; pose proof (g5W_range x1) as R.
-    step_if B.
-    { step_if A.
-      - step_if EP; word_norm lia; step_if ES; rint_nan_leaf.
-      - step_if SG; (apply rint_inf; [assumption|assumption|lia|]; unfold sgZ; rewrite SG; reflexivity). }
-    step_if C24. { step_if Z0; [rint_zero_leaf x1 ltac:(left; lia)|exfalso; lia]. }
-    step_if NC. { step_if Z0; [rint_zero_leaf x1 ltac:(right; left; unfold hiW, T34; lia)|exfalso; lia]. }
-    step_if Z0. { rint_zero_leaf x1 ltac:(right; right; unfold hiW; lia). }
-    assert (G24 : g5W x1 < 24) by lia.
-    set (hi := x1 mod 562949953421312) in *.
-    assert (Hhi : 0 <= hi < 562949953421312) by (apply Z.mod_pos_bound; reflexivity).
-    set (C := hi * 18446744073709551616 + x0).
-    assert (HC : 0 < C < 10000000000000000000000000000000000) by (unfold C; lia).
-    set (be := (x1 / 562949953421312) mod 16384) in *.
-    assert (Hbe : 0 <= be <= 12287) by (unfold be, g5W in *; lia).
-    set (sb := (x1 / 9223372036854775808) mod 2) in *.
-    assert (Hsb : 0 <= sb <= 1) by (unfold sb; lia).
-    set (k := 6176 - be) in *.
-    assert (PRE : 6176 <= be \/ be <= 6141).
-    { destruct (HPRE _ _ _ (decode_can x0 x1 H0 H1 G24 HC)) as [X|[X|X]]; change (beW x1) with be in X; change (hiW x1 * 18446744073709551616 + x0) with C in X; lia. }
-    assert (SMALL : forall r0 r1, be <= 6141 -> r0 = rint_n RUP (1 <=? sb) C k ->
-      r1 = sb * 9223372036854775808 + 3476778912330022912 -> rint_spec RUP false x0 x1 st (r0, r1, st)).
-    { intros r0 r1 Hb -> ->.
-      assert (HS : 2 * C < 10 ^ k).
-      { apply Z.lt_le_trans with (10 ^ 35); [change (10 ^ 35) with 100000000000000000000000000000000000; lia|apply Z.pow_le_mono_r; lia]. }
-      assert (Hb' : be < 6176) by lia.
-      assert (HCk : 0 < C < 10 ^ k) by lia.
-      apply (rint_leaf RUP false x0 x1 st _ _ _ 0 sb H0 H1 G24 HC Hb' eq_refl).
-      - rewrite (rint_n_small RUP _ C k HCk). unfold in_u64. repeat match goal with |- context [if ?c then _ else _] => destruct c end; lia.
-      - lia.
-      - reflexivity.
-      - lia.
-      - rewrite andb_false_r. reflexivity. }
-    step_if SM.
-    { assert (HS : 2 * C < 10 ^ k).
-      { apply Z.lt_le_trans with (10 ^ 35); [change (10 ^ 35) with 100000000000000000000000000000000000; lia|apply Z.pow_le_mono_r; lia]. }
-      assert (HCk : 0 < C < 10 ^ k) by lia.
-      step_if SGN; (apply SMALL; [lia|rewrite (rint_n_small RUP _ C k HCk); destruct (Z.leb_spec 1 sb); lia|lia]). }
-    word_norm lia.
-    nbits_stage x0 hi C.
-    assert (Ee : wrap_i32 (wrap_u64 (be - 6176)) = be - 6176) by (unfold wrap_i32, wrap_u64; lia).
-    rewrite !Ee. clear Ee.
-    step_if EXP; [|exfalso; lia].
-    apply rint_ident; [assumption|assumption|exact G24|exact HC|change (beW x1) with be; lia].
-  - red_lets.
-    pose proof H0 as H0'; pose proof H1 as H1'; unfold in_u64 in H0', H1'.
-    word_norm lia; mask_tests; pose proof (g5W_range x1) as R.
-    step_if B.
-    { step_if A.
-      - step_if EP; word_norm lia; step_if ES; rint_nan_leaf.
-      - step_if SG; (apply rint_inf; [assumption|assumption|lia|]; unfold sgZ; rewrite SG; reflexivity). }
-    step_if C24. { step_if Z0; [rint_zero_leaf x1 ltac:(left; lia)|exfalso; lia]. }
-    step_if NC. { step_if Z0; [rint_zero_leaf x1 ltac:(right; left; unfold hiW, T34; lia)|exfalso; lia]. }
-    step_if Z0. { rint_zero_leaf x1 ltac:(right; right; unfold hiW; lia). }
-    assert (G24 : g5W x1 < 24) by lia.
-    set (hi := x1 mod 562949953421312) in *.
-    assert (Hhi : 0 <= hi < 562949953421312) by (apply Z.mod_pos_bound; reflexivity).
-    set (C := hi * 18446744073709551616 + x0).
-    assert (HC : 0 < C < 10000000000000000000000000000000000) by (unfold C; lia).
-    set (be := (x1 / 562949953421312) mod 16384) in *.
-    assert (Hbe : 0 <= be <= 12287) by (unfold be, g5W in *; lia).
-    set (sb := (x1 / 9223372036854775808) mod 2) in *.
-    assert (Hsb : 0 <= sb <= 1) by (unfold sb; lia).
-    set (k := 6176 - be) in *.
-    assert (PRE : 6176 <= be \/ be <= 6141).
-    { destruct (HPRE _ _ _ (decode_can x0 x1 H0 H1 G24 HC)) as [X|[X|X]]; change (beW x1) with be in X; change (hiW x1 * 18446744073709551616 + x0) with C in X; lia. }
-    assert (SMALL : forall r0 r1, be <= 6141 -> r0 = rint_n RTZ (1 <=? sb) C k ->
-      r1 = sb * 9223372036854775808 + 3476778912330022912 -> rint_spec RTZ false x0 x1 st (r0, r1, st)).
-    { intros r0 r1 Hb -> ->.
-      assert (HS : 2 * C < 10 ^ k).
-      { apply Z.lt_le_trans with (10 ^ 35); [change (10 ^ 35) with 100000000000000000000000000000000000; lia|apply Z.pow_le_mono_r; lia]. }
-      assert (Hb' : be < 6176) by lia.
-      assert (HCk : 0 < C < 10 ^ k) by lia.
-      apply (rint_leaf RTZ false x0 x1 st _ _ _ 0 sb H0 H1 G24 HC Hb' eq_refl).
-      - rewrite (rint_n_small RTZ _ C k HCk). unfold in_u64. repeat match goal with |- context [if ?c then _ else _] => destruct c end; lia.
-      - lia.
-      - reflexivity.
-      - lia.
-      - rewrite andb_false_r. reflexivity. }
-    step_if SM.
-    { assert (HS : 2 * C < 10 ^ k).
-      { apply Z.lt_le_trans with (10 ^ 35); [change (10 ^ 35) with 100000000000000000000000000000000000; lia|apply Z.pow_le_mono_r; lia]. }
-      assert (HCk : 0 < C < 10 ^ k) by lia.
-      apply SMALL; [lia|rewrite (rint_n_small RTZ _ C k HCk); repeat match goal with |- context [if ?c then _ else _] => destruct c eqn:? end; lia|rewrite lor_hi63 by lia; reflexivity]. }
-    word_norm lia.
-    nbits_stage x0 hi C.
-    assert (Ee : wrap_i32 (wrap_u64 (be - 6176)) = be - 6176) by (unfold wrap_i32, wrap_u64; lia).
-    rewrite !Ee. clear Ee.
-    step_if EXP; [|exfalso; lia].
-    apply rint_ident; [assumption|assumption|exact G24|exact HC|change (beW x1) with be; lia].
-  - red_lets.
-    pose proof H0 as H0'; pose proof H1 as H1'; unfold in_u64 in H0', H1'.
-    word_norm lia; mask_tests; pose proof (g5W_range x1) as R.
-    step_if B.
-    { step_if A.
-      - step_if EP; word_norm lia; step_if ES; rint_nan_leaf.
-      - step_if SG; (apply rint_inf; [assumption|assumption|lia|]; unfold sgZ; rewrite SG; reflexivity). }
-    step_if C24. { step_if Z0; [rint_zero_leaf x1 ltac:(left; lia)|exfalso; lia]. }
-    step_if NC. { step_if Z0; [rint_zero_leaf x1 ltac:(right; left; unfold hiW, T34; lia)|exfalso; lia]. }
-    step_if Z0. { rint_zero_leaf x1 ltac:(right; right; unfold hiW; lia). }
-    assert (G24 : g5W x1 < 24) by lia.
-    set (hi := x1 mod 562949953421312) in *.
-    assert (Hhi : 0 <= hi < 562949953421312) by (apply Z.mod_pos_bound; reflexivity).
-    set (C := hi * 18446744073709551616 + x0).
-    assert (HC : 0 < C < 10000000000000000000000000000000000) by (unfold C; lia).
-    set (be := (x1 / 562949953421312) mod 16384) in *.
-    assert (Hbe : 0 <= be <= 12287) by (unfold be, g5W in *; lia).
-    set (sb := (x1 / 9223372036854775808) mod 2) in *.
-    assert (Hsb : 0 <= sb <= 1) by (unfold sb; lia).
-    set (k := 6176 - be) in *.
-    assert (PRE : 6176 <= be \/ be <= 6141).
-    { destruct (HPRE _ _ _ (decode_can x0 x1 H0 H1 G24 HC)) as [X|[X|X]]; change (beW x1) with be in X; change (hiW x1 * 18446744073709551616 + x0) with C in X; lia. }
-    assert (SMALL : forall r0 r1, be <= 6141 -> r0 = rint_n RNA (1 <=? sb) C k ->
-      r1 = sb * 9223372036854775808 + 3476778912330022912 -> rint_spec RNA false x0 x1 st (r0, r1, st)).
-    { intros r0 r1 Hb -> ->.
-      assert (HS : 2 * C < 10 ^ k).
-      { apply Z.lt_le_trans with (10 ^ 35); [change (10 ^ 35) with 100000000000000000000000000000000000; lia|apply Z.pow_le_mono_r; lia]. }
-      assert (Hb' : be < 6176) by lia.
-      assert (HCk : 0 < C < 10 ^ k) by lia.
-      apply (rint_leaf RNA false x0 x1 st _ _ _ 0 sb H0 H1 G24 HC Hb' eq_refl).
-      - rewrite (rint_n_small RNA _ C k HCk). unfold in_u64. repeat match goal with |- context [if ?c then _ else _] => destruct c end; lia.
-      - lia.
-      - reflexivity.
-      - lia.
-      - rewrite andb_false_r. reflexivity. }
-    step_if SM.
-    { assert (HS : 2 * C < 10 ^ k).
-      { apply Z.lt_le_trans with (10 ^ 35); [change (10 ^ 35) with 100000000000000000000000000000000000; lia|apply Z.pow_le_mono_r; lia]. }
-      assert (HCk : 0 < C < 10 ^ k) by lia.
-      apply SMALL; [lia|rewrite (rint_n_small RNA _ C k HCk); repeat match goal with |- context [if ?c then _ else _] => destruct c eqn:? end; lia|rewrite lor_hi63 by lia; reflexivity]. }
-    word_norm lia.
-    nbits_stage x0 hi C.
-    assert (Ee : wrap_i32 (wrap_u64 (be - 6176)) = be - 6176) by (unfold wrap_i32, wrap_u64; lia).
-    rewrite !Ee. clear Ee.
-    step_if EXP; [|exfalso; lia].
-    apply rint_ident; [assumption|assumption|exact G24|exact HC|change (beW x1) with be; lia].
+  destruct CASES as [-> | [-> | [-> | [-> | ->]]]]; cbn [md_of].
+  - split; [apply OK_bid128_nearbyint_0|apply (V_bid128_nearbyint_0 x0 x1 st)]; assumption.
+  - split; [apply OK_bid128_nearbyint_1|apply (V_bid128_nearbyint_1 x0 x1 st)]; assumption.
+  - split; [apply OK_bid128_nearbyint_2|apply (V_bid128_nearbyint_2 x0 x1 st)]; assumption.
+  - split; [apply OK_bid128_nearbyint_3|apply (V_bid128_nearbyint_3 x0 x1 st)]; assumption.
+  - split; [apply OK_bid128_nearbyint_4|apply (V_bid128_nearbyint_4 x0 x1 st)]; assumption.
 Qed.
-Print Assumptions I_bid128_nearbyint_partial.
+Print Assumptions I_bid128_nearbyint.
 (* END bid128_nearbyint *)
